@@ -178,6 +178,21 @@ func childTTY(args []string) int {
 			}
 		}
 	}
+	if strings.Contains(mode, "latesubscribe") {
+		// hold the resize listener just before it subscribes to SIGWINCH, until the gate file exists
+		tea.VerifPauseHook = func(where string) {
+			if where == "resize: subscribe" {
+				m.logf("sub-paused")
+				for {
+					if _, err := os.Stat(gate); err == nil {
+						break
+					}
+					time.Sleep(2 * time.Millisecond)
+				}
+				m.logf("sub-resumed")
+			}
+		}
+	}
 	p := tea.NewProgram(m, opts...)
 	ttyProg = p
 	m.logf("starting")
@@ -479,6 +494,7 @@ func scenPty(out *scenOut, rr *rng, thorough bool) {
 			ptySuspend(out, mode)
 		}
 		ptySizeQueryShapes(out)
+		ptyResizeBeforeSubscription(out)
 		ptyFilterSeesSizes(out)
 		secondRunTermios(out)
 	}()
@@ -1133,5 +1149,43 @@ func secondRunTermios(out *scenOut) {
 	if before2 != nil && after2 != nil && *before2 != *after2 {
 		out.fail(finding{Property: "C05", Class: "new", What: "termios of the input terminal after the SECOND Run of a Program differ from those before that Run (the settings of the first run were put back)", Input: desc,
 			Expected: fmt.Sprintf("lflag=%#x", before2.Lflag), Observed: fmt.Sprintf("lflag=%#x", after2.Lflag)})
+	}
+}
+
+// ptyResizeBeforeSubscription: the terminal is resized in the first instants of the program: the
+// start-up size query has read 80x24, the resize listener has been started but is descheduled just
+// before it subscribes to SIGWINCH (pause point `resize: subscribe`). When everything is quiet
+// again Update must know the true size (C18: "the true size at start-up, again after every resize
+// signal"): nothing may fall between the start-up query and the subscription.
+func ptyResizeBeforeSubscription(out *scenOut) {
+	desc := "resize listener held just before it subscribes to SIGWINCH; start-up query reports 80x24; resize to 100x30; listener released"
+	r, err := startPtyChild("default-latesubscribe", 80, 24)
+	if err != nil {
+		return
+	}
+	defer r.cleanup()
+	if !r.waitLog("sub-paused", 5*time.Second) {
+		out.record("resize-before-subscription (pause point not reached)", desc)
+		return
+	}
+	got8024 := r.waitLog("size 80 24", 2*time.Second)
+	out.record("resize-before-subscription", desc)
+	time.Sleep(30 * time.Millisecond)
+	setWinsize(r.pair.master, 100, 30)
+	time.Sleep(50 * time.Millisecond)
+	os.WriteFile(r.gate, []byte("x"), 0o644)
+	r.waitLog("sub-resumed", 2*time.Second)
+	ok := waitFor(1500*time.Millisecond, func() bool {
+		s := r.sizes()
+		return len(s) > 0 && s[len(s)-1] == "100 30"
+	})
+	if !ok {
+		out.fail(finding{Property: "C18", Class: "new", What: "a resize between the start-up size query and the listener's subscription to SIGWINCH was never reported: the program keeps a stale size", Input: desc,
+			Expected: "last size 100 30", Observed: fmt.Sprintf("sizes seen: %s (start-up report seen before the resize: %t)", strings.Join(r.sizes(), ", "), got8024)})
+	}
+	r.pair.master.Write([]byte("q"))
+	select {
+	case <-r.exited:
+	case <-time.After(3 * time.Second):
 	}
 }
